@@ -196,7 +196,8 @@ class Check:
         return all_ok
 
     # ------------------------------------------------------------------ stage 2b: translator tie (second, independent tie)
-    FAMILY_SOURCES = {"TMsg": ["CCMsg", "PNMsgFile"], "TCC": ["CCScan"], "TPN": ["PNScan"], "TPoll": ["PollScan"]}
+    FAMILY_SOURCES = {"TMsg": ["CCMsg", "PNMsgFile"], "TCC": ["CCScan"], "TPN": ["PNScan"], "TPoll": ["PollScan"],
+                      "TShort": ["ShortMsg", "FactoryDefaults"], "TStruct": ["StructuredImpl"]}
 
     def translated(self, families):
         """Regenerate the Lean translation of the source files behind `families` (tools/rs2lean.py) and check the
